@@ -236,7 +236,9 @@ def histStep (f : Fam) (kind : String) (pre : Text) (op : Model.HOp) (tok : HTok
   | .sf v, .text post =>
     (firstFail [validPost post, Oracle.frame post { p with fragment := v }], some post)
   | .res base, .text post =>
-    let e := firstFail [validPost post, Oracle.resolve f base pre post]
+    -- the RFC target of an in-place resolution is C06's concern: a mismatch is reported to C06
+    -- only (C04 asks for a valid buffer, which `validPost` checks)
+    let e := firstFail [validPost post, (Oracle.resolve f base pre post).map ("[only:C06] " ++ ·)]
     let e := match e with
       | some msg => if valid f kind post && Findings.f15 base pre then some (msg ++ " [KF:F15]") else some msg
       | none => none
@@ -626,6 +628,23 @@ def opPct (f : Fam) (kind : String) (x : Text) (out : String) : String × String
       | some msg => if Findings.f13 x then "FAIL " ++ msg ++ " [KF:F13]" else "FAIL " ++ msg
   (m, o)
 
+/-- `pctref`: every component reached from a whole reference has exactly the decoded octets of
+the corresponding RFC component -/
+def opPctRef (f : Fam) (x : Text) (out : String) : String × String :=
+  let m := Model.pctrefLine f x
+  let o :=
+    if !valid f "ref" x then
+      (if out == "invalid" then "skip" else "FAIL accepted an argument outside the RFC production")
+    else
+      let p := split x
+      let oct (t : Text) : String := hex (pctDecode t)
+      let ooct (t : Option Text) : String := match t with | some t => oct t | none => "-"
+      let ap := p.authority.map splitAuth
+      let want := s!"ui={ooct (ap.bind (·.userinfo))} host={ooct (ap.map (·.host))} segs=[{",".intercalate ((segs p.path).map oct)}] rev=1 query={ooct p.query} fragment={ooct p.fragment}"
+      verdict (check (out == want)
+        "the octet view of a component reached from the whole reference is not that component's bytes with each %XX replaced")
+  (m, o)
+
 /-! ## provenance and allocation (C20) -/
 
 /-- `a+b` → range, `const:x..` → constant, `-` → absent -/
@@ -701,6 +720,8 @@ def opPtr (f : Fam) (full : Bool) (x : Text) (out : String) : String × String :
         check (g "whole" == .range 0 x.length) "the parsed value does not occupy exactly the caller's input",
         check (g "scheme" == sR && g "authority" == aR && g "path" == pR && g "query" == qR && g "fragment" == fR)
           "components are not the in-order, non-overlapping sub-slices of the input given by RFC 3986",
+        check (g "ascheme" == sR && g "aauthority" == aR && g "apath" == pR && g "aquery" == qR && g "afragment" == fR)
+          "the stand-alone accessors do not return the in-order, non-overlapping sub-slices of the input given by RFC 3986",
         check (subLoc (g "userinfo") (ap.bind (·.userinfo)) && subLoc (g "host") (ap.map (·.host)) &&
           subLoc (g "port") (ap.bind (·.port))) "authority sub-components are not sub-slices of the authority",
         check (segLoc (g "first") sg.head? && segLoc (g "last") sg.getLast? && segLoc (g "fn") (Oracle.fileName p.path))
@@ -795,6 +816,10 @@ def dispatch (opLine out : String) : String × String :=
   | ["pct", f, kind, x] =>
     match Fam.ofString? f, unhex x with
     | some f, some x => opPct f kind x out
+    | _, _ => bad
+  | ["pctref", f, x] =>
+    match Fam.ofString? f, unhex x with
+    | some f, some x => opPctRef f x out
     | _, _ => bad
   | ["ptrbig", _, _, x] =>
     -- summary line for inputs far larger than any inline buffer; the argument is not decoded
